@@ -252,6 +252,7 @@ def gen_case(seed, tier='quick'):
     knobs = {'n_evaluators': n_ev,
              'max_empty': rng.choice([100, 100, 100, 1, 2, 5]),
              'fail_on': rng.choice([1, 2, 3]) if faulty else None,
+             'fail_exc': rng.choice(['oserr', 'keyerr', 'valerr', 'notimpl']),
              'fault_class': 'faulty' if faulty else 'fault_free',
              # how the model under test came to be: the statement speaks of
              # "a model", whatever its provenance
@@ -377,7 +378,8 @@ class History:
             model = self.provenance(model, knobs.get('provenance', 'compiled'))
             if self.viol is not None:
                 return self
-            uf = UserFuncs(knobs.get('fail_on'))
+            uf = UserFuncs(knobs.get('fail_on'),
+                           knobs.get('fail_exc', 'oserr'))
             evs = [Evaluator(model, uf.namespace(tag=k))
                    for k in range(knobs.get('n_evaluators', 1))]
             self.inputs = dict(world['cells'])
